@@ -165,6 +165,37 @@ def run_case(ctx, case):
                     if alive:
                         f2, cur = mv.get(cur, [(k, xx)])
                         alive = f2
+                if neg_pad and bad is None:
+                    # front padding: elements of the padded array keep their offset from the END;
+                    # everything outside that array keeps its location
+                    cur = v
+                    P = []
+                    for k, xx in canon:
+                        if k == "i" and type(cur) is list and xx < 0 and -xx > len(cur):
+                            break
+                        P.append((k, xx))
+                        f2, cur = mv.get(cur, [(k, xx)])
+                        if not f2:
+                            break
+                    fo, old_arr = mv.get(v, P)
+                    fn_, new_arr = mv.get(w, P)
+                    if fo and fn_ and type(old_arr) is list and type(new_arr) is list:
+                        delta = len(new_arr) - len(old_arr)
+                        for q, content in mv.locations(v, limit=200):
+                            qq = [tuple(sg) for sg in q]
+                            if len(qq) <= len(P) and qq == P[:len(qq)]:
+                                continue                      # ancestors of the padded array contain p
+                            if qq[:len(P)] == P:
+                                q2 = P + [("i", qq[len(P)][1] + delta)] + qq[len(P) + 1:]
+                            else:
+                                q2 = qq
+                            f3, c3 = mv.get(w, q2)
+                            if not f3 or not veq(c3, content):
+                                bad = ("L2_sibling_moved_by_front_padding", {"location": qq, "expected_at": q2,
+                                                                             "before": repr(content)[:150], "after": repr(c3)[:150]})
+                                break
+                        if bad is None and any(e is not None for e in new_arr[1:delta]):
+                            bad = ("L2_front_padding_not_null", {"array_after": repr(new_arr)[:200]})
                 if not neg_pad:
                     path_c = canon
                     for q, content in mv.locations(v, limit=200):
